@@ -22,6 +22,13 @@ def is_signed(event, config):
     """
     Ensure the event is correctly formatted and signed
     """
+    # what is stored and served has to be exactly what was signed: the storage
+    # back ends keep created_at as an integer and id, pubkey and sig as bytes
+    if type(event.created_at) is not int:
+        raise StorageError("invalid: created_at must be an integer")
+    for value in (event.id, event.pubkey, event.sig):
+        if not isinstance(value, str) or value != value.lower():
+            raise StorageError("invalid: id, pubkey and sig must be lowercase hex")
     if not event.verify():
         raise StorageError("invalid: Bad signature")
     # verify() checks the signature against the hash it computes itself,
